@@ -189,21 +189,31 @@ class RInst:
         return (self.addr, self.parsed.mnemonic, tuple(self.ops_norm) if self.ops_norm else ("",))
 
     def acceptable_mnemonics(self):
-        """Mnemonic spellings a faithful stream may carry for this line."""
+        """Mnemonic spellings a faithful stream may carry for this line: the mnemonic token (the first token that is not a
+        prefix; modulo the parentheses of `(bad)` and a `,pt/,pn` hint), alone or together with the prefixes in front of it."""
         acc = set()
-        toks = self.parsed.tokens
-        for i, t in enumerate(toks):
-            if all(_is_prefix_token(x) for x in toks[:i]):
-                acc.add(t)
-                if t.startswith("(") and t.endswith(")"):
-                    acc.add(t[1:-1])
-                if "," in t:
-                    acc.add(t.split(",")[0])
-                    acc.add(t.replace(",", "."))
-                    acc.add(t.replace(",", ""))
-            if not _is_prefix_token(t):
-                break
+        t = self.parsed.mnemonic
+        acc.add(t)
+        if t.startswith("(") and t.endswith(")"):
+            acc.add(t[1:-1])
+        if "," in t:
+            acc.add(t.split(",")[0])
+            acc.add(t.replace(",", "."))
+            acc.add(t.replace(",", ""))
+        if self.parsed.prefixes:
+            for v in list(acc):
+                acc.add(" ".join(self.parsed.prefixes + [v]))
+                acc.add(" ".join([x for x in self.parsed.prefixes if x != "data16"] + [v]))
         return acc
+
+    def prefix_as_mnemonic(self):
+        """Open finding (C08/C09): the reading in which the first prefix token other than `data16` is taken for the mnemonic
+        and the token after it for the operand text. Returns (mnemonic, operand fields) of that reading, or None if the line
+        has no such prefix in front of its mnemonic."""
+        toks = [t for i, t in enumerate(self.parsed.tokens) if not (t == "data16" and i + 1 < len(self.parsed.tokens))]
+        if len(toks) >= 2 and _is_prefix_token(toks[0]) and toks[0] != "data16" and toks[0] != self.parsed.mnemonic:
+            return toks[0], toks[1]
+        return None
 
 
 def read_listing(text: str) -> Tuple[List[RInst], dict]:
